@@ -67,6 +67,7 @@ type Runner struct {
 	// that produced them (one operation may stamp several edges with slightly different times)
 	opIntervals [][2]int64
 	cuts        int // number of VDeleteCut operations executed (rotates the cut point inside the cascade)
+	repairs     int // VGetConnections calls that started a self-repair (each advances the model clock by one)
 	// Dirty: an uncommitted bulk import is in memory (documented to be lost by a restart until
 	// VImportCommit or another snapshot/compaction persists it)
 	Dirty bool
@@ -517,6 +518,12 @@ func (r *Runner) Exec(op map[string]any) (string, error) {
 					r.clockReal[r.clock] = time.Now().UnixNano()
 				}
 			}
+		case "VGetConnections":
+			if r.repairs > 0 {
+				r.repairs = 0
+				r.clock++
+				r.clockReal[r.clock] = time.Now().UnixNano()
+			}
 		case "VDelete", "VDeleteCut":
 			if out == "ok" {
 				r.clock++
@@ -693,6 +700,54 @@ func (r *Runner) exec(op map[string]any) (string, error) {
 		return res(e.VTriggerMaintenance(str(op, "n"), "refine"))
 	case "VCompress":
 		return res(e.VCompress(str(op, "n"), distance.PrecisionType(str(op, "p"))))
+	case "VGetConnections":
+		// hydration; its documented self-repair unlinks dead targets in background goroutines: wait for them
+		tick()
+		src := r.id(str(op, "s"))
+		targets, _ := e.VGetLinks(r.P.GName, src, str(op, "r"))
+		repaired := make(chan struct{}, 64)
+		verifhook.Set(func(name string, kv []any) {
+			if r.ExtraHook != nil {
+				r.ExtraHook(name, kv)
+			}
+			if name == "repair.done" {
+				repaired <- struct{}{}
+			}
+		})
+		got, err := e.VGetConnections(r.P.GName, src, str(op, "r"))
+		if err != nil {
+			verifhook.Set(nil)
+			return res(err)
+		}
+		for i := 0; i < len(targets)-len(got); i++ {
+			select {
+			case <-repaired:
+			case <-time.After(20 * time.Second):
+				verifhook.Set(nil)
+				return "", fmt.Errorf("self-repair of VGetConnections did not finish")
+			}
+		}
+		verifhook.Set(nil)
+		tick()
+		if len(targets) > len(got) {
+			r.repairs++
+		}
+		want := map[string]bool{}
+		if ws, ok := op["ids"].([]any); ok {
+			for _, w := range ws {
+				if sw, ok := w.(string); ok {
+					want[sw] = true
+				}
+			}
+		}
+		have := map[string]bool{}
+		for _, d := range got {
+			have[r.modelID(d.ID)] = true
+		}
+		if len(have) != len(got) || !reflect.DeepEqual(want, have) {
+			return fmt.Sprintf("hydrated=%v", keysOf(have)), nil
+		}
+		return "ok", nil
 	case "VLink":
 		tick()
 		err := e.VLink(r.P.GName, r.id(str(op, "s")), r.id(str(op, "t")), str(op, "r"), optStr(op, "inv"), weightOf(str(op, "w")), propsOf(optStr(op, "p")))
@@ -934,5 +989,14 @@ func (r *Runner) metaTokens(m map[string]any) map[string]any {
 			out[k] = r.mtoken(v)
 		}
 	}
+	return out
+}
+
+func keysOf(m map[string]bool) []string {
+	out := make([]string, 0, len(m))
+	for k := range m {
+		out = append(out, k)
+	}
+	sort.Strings(out)
 	return out
 }
